@@ -225,6 +225,7 @@ impl Screen {
         }
 
         (self.lines, self.columns) = (lines, columns);
+        self.dirty.retain(|y| *y < lines);
         self.set_margins(None, None);
         self.ensure_hbounds();
         self.ensure_vbounds(None);
